@@ -37,6 +37,12 @@ VARIANTS = {
     'tsan':  dict(cc='gcc', cxx='g++', flags=['-O1', '-fsanitize=thread'] + COMMON,
                   ld=['-fsanitize=thread']),
     'plain': dict(cc='gcc', cxx='g++', flags=['-O2'] + COMMON, ld=[]),
+    # coverage-guided stage: clang, sanitizer coverage for libFuzzer + AddressSanitizer/UBSan; the harness keeps its own main()
+    'fuzz':  dict(cc='clang', cxx='clang++', flags=['-O1', '-fsanitize=fuzzer-no-link,address,undefined',
+                                                    '-fsanitize-recover=undefined', '-fno-sanitize=object-size',
+                                                    '-DVH_FUZZ'] + COMMON,
+                  ld=['-fsanitize=address,undefined',
+                      '/usr/lib/llvm-14/lib/clang/14.0.6/lib/linux/libclang_rt.fuzzer_no_main-x86_64.a', '-lstdc++']),
 }
 
 # ---------------------------------------------------------------------------
@@ -254,11 +260,13 @@ def run_shard(exe, stage, seed, tier, lo, n, outdir, tag, extra_args=(), timeout
                 inconclusive=inconcl)
 
 
-def single_case(exe, stage, seed, tier, idx, outdir, timeout=60):
+def single_case(exe, stage, seed, tier, idx, outdir, timeout=60, hexbytes=None):
     """Re-run exactly one case verbosely; returns (rc, stdout(jsonl events), stderr)"""
     out = os.path.join(outdir, 'single.%d.jsonl' % idx)
     cmd = list(stage.get('wrapper', [])) + [exe, '--seed', str(seed), '--from', str(idx), '--count', '1', '--tier', tier,
            '--mode', stage.get('mode', ''), '--out', out, '--verbose'] + list(stage.get('args', []))
+    if hexbytes is not None:
+        cmd += ['--hex', hexbytes]
     try:
         p = subprocess.run(cmd, stdout=subprocess.PIPE, stderr=subprocess.PIPE, env=harness_env(), timeout=timeout)
         rc, err = p.returncode, p.stderr.decode('utf-8', 'replace')
@@ -362,6 +370,11 @@ def check(prop, tier, seed):
         st_eval = 0
         for r in results:
             inconclusive += r['inconclusive']
+            if stage.get('fuzz'):
+                for m in re.finditer(r'#\d+\s+DONE\s+cov: (\d+) ft: (\d+) corp: (\d+)', r['stderr']):
+                    counters['fuzz.cov_edges_best_shard'] = max(counters.get('fuzz.cov_edges_best_shard', 0), int(m.group(1)))
+                    counters['fuzz.features_best_shard'] = max(counters.get('fuzz.features_best_shard', 0), int(m.group(2)))
+                    counters['fuzz.corpus_units_total'] = counters.get('fuzz.corpus_units_total', 0) + int(m.group(3))
             for m in re.finditer(r'runtime error: ([^\n]+)', r['stderr']):
                 key = re.sub(r'0x[0-9a-f]+|-?\d+', 'N', m.group(1))[:120]
                 ubsan[key] = ubsan.get(key, 0) + 1
@@ -390,6 +403,9 @@ def check(prop, tier, seed):
                                            mode=stage.get('mode', ''), seed=seed, tier=tier, index=ev.get('index'),
                                            check=chk, tags=tags, case=ev.get('case'), observed=ev.get('observed'),
                                            expected=ev.get('expected'), count=0)
+                    if stage.get('fuzz'):
+                        hm = re.search(r'bytes=([0-9a-f]*)', str(ev.get('case')))
+                        violations[sig]['hex'] = hm.group(1) if hm else ''
                 violations[sig]['count'] += 1
         # crashes: confirm at most 2 per preliminary signature, in parallel
         todo = []
@@ -403,7 +419,8 @@ def check(prop, tier, seed):
                     todo.append(cr)
 
         def confirm(cr):
-            return cr, single_case(exe, stage, seed, tier, cr['index'], outdir, timeout=stage.get('case_timeout', 60))
+            return cr, single_case(exe, stage, seed, tier, cr['index'], outdir, timeout=stage.get('case_timeout', 60),
+                                   hexbytes=cr.get('hex') if stage.get('fuzz') else None)
         with ThreadPoolExecutor(8) as ex:
             confirmed = list(ex.map(confirm, todo))
         for cr, (rc, evs, err) in confirmed:
@@ -434,6 +451,8 @@ def check(prop, tier, seed):
                 violations[sig] = dict(property=prop, harness=stage['harness'], variant=stage['variant'],
                                        mode=stage.get('mode', ''), seed=seed, tier=tier, index=idx, check=chk,
                                        tags=tags, case=desc, observed=err[-3000:], expected='no crash', count=0)
+                if stage.get('fuzz'):
+                    violations[sig]['hex'] = cr.get('hex', '')
             violations[sig]['count'] += 1
         evaluations += st_eval
         stage_info.append(dict(harness=stage['harness'], variant=stage['variant'], mode=stage.get('mode', ''),
@@ -491,7 +510,7 @@ def replay(path):
     exe = build_harness(stage['harness'], stage['variant'], stage.get('ldextra'))
     outdir = os.path.join(BUILD, 'runs', 'replay.%d' % os.getpid())
     os.makedirs(outdir, exist_ok=True)
-    rc, evs, err = single_case(exe, stage, v['seed'], v['tier'], v['index'], outdir, timeout=120)
+    rc, evs, err = single_case(exe, stage, v['seed'], v['tier'], v['index'], outdir, timeout=120, hexbytes=v.get('hex'))
     for e in evs:
         print(json.dumps(e))
     print(err[-6000:])
